@@ -282,6 +282,13 @@ def c05(tier):
     gs2, errors2 = G.persist_groups(run.results[n0:], sizes(tier, 1000, 5000), random.Random(s + 1), subsets=0, lean=True)
     run.extra["persist_job_errors"] = errors + errors2
     run.add_groups(gs + gs2)
+    # the data-path host: nested values, publishes over publishes, output rendered and a rerun after it
+    from . import datapath as DP
+    paths, res = DP.enumerate_paths(run.tmp)
+    gs3, errs3 = DP.persist_pairs(paths, DP.values(s, sizes(tier, 60, 400)), seed=s)
+    for e in errs3[:2]:
+        run.machinery.append("data-path pair: " + e["error"][:1200])
+    run.add_groups(gs3)
     return run.finish("model_checking",
                       "for sampled complete histories: live run vs run restored (deserialize(serialize())) after "
                       "every call / after random subsets of calls / after one call; compared step by step",
@@ -437,7 +444,7 @@ def c17(tier):
     # Spec B with the Rerun action: C17 clauses model-checked, behaviours replayed into the real conductor
     run.add_mc((F.curated()[:16] if tier == "quick" else F.curated() + F.curated_retry()[:4] + F.random_family(3500 + s, 150, nmax=4)),
                ["C17"], max_rerun=1, max_steps=18, replay=True)
-    defs = F.curated() + F.random_family(2400 + s, sizes(tier, 40, 500), nmax=4, publish=True)
+    defs = F.curated() + F.curated_ctx() + F.random_family(2400 + s, sizes(tier, 40, 500), nmax=4, publish=True)
     env = {"rerun": 1, "rerun_tasks": True, "max_nodes": sizes(tier, 1200, 10000)}
     run.add_jobs(jobs_for(defs, env, s, ("yaql", "jinja")))
     run.add_jobs(jobs_for(F.curated_items() + F.curated_retry() + F.fault_family(("undef",), ("when", "publish", "output")),
